@@ -126,7 +126,7 @@ func vxName() string {
 // inside a protected directory is refused, and one outside is not refused on these grounds.
 func VerifC20_PathGuard() {
 	defer vxCleanupScratch()
-	fam := vxPick(9)
+	fam := vxPick(10)
 	ro := vxBool()
 	maxLen := vxParam("maxlen", 10)
 	S := vxScratch()
@@ -203,6 +203,21 @@ func VerifC20_PathGuard() {
 		}
 		vxFSDefault(1)
 		dbPath, loc = "/vxm/.."+tail, tail
+	case 8: // relative spelling with ".." right after a symlinked directory (lexical cleaning would cancel the symlink)
+		R := vxTarget(maxLen)
+		rest := vxName()
+		vxMkSymlink(S+"/l", R)
+		vxSetCwd(S)
+		vxFSEntry(S+"/l", 0, R)
+		vxFSEntry("l", 0, R)
+		vxFSEntry(S+"/l/..", 0, vxDirOf(R))
+		vxFSEntry("l/..", 0, vxDirOf(R))
+		vxFSEntry(S+"/l/../"+rest, 1, "")
+		vxFSEntry("l/../"+rest, 1, "")
+		vxFSEntry(S+"/"+rest, 1, "")
+		vxFSEntry(rest, 1, "")
+		vxFSEntry(S, 0, S)
+		dbPath, loc = "l/../"+rest, vxJoin2(vxDirOf(R), rest)
 	default: // resolution fails for a reason other than non-existence (symlink loop)
 		dbPath = S + "/loop"
 		vxMkSymlink(dbPath, dbPath)
@@ -225,6 +240,10 @@ func VerifC20_PathGuard() {
 		prot := vxProtected(loc)
 		vxCover("protected-location-reachable", prot)
 		vxCover("unprotected-location-reachable", !prot)
+		// one witness per scenario family and outcome: the thorough tier re-runs each on the real file system
+		famName := []string{"new-abs", "existing-abs", "symlink-leaf", "symlinked-parent", "dotdot-after-symlink", "relative-new", "relative-existing", "missing-then-dotdot", "relative-dotdot-after-symlink", "resolution-error"}[fam]
+		vxCover("protected:"+famName, prot)
+		vxCover("unprotected:"+famName, !prot)
 		vxAssert("protected-location-refused", vxImplies(prot, refused))
 		vxAssert("unprotected-location-not-refused", vxImplies(!prot, !refused))
 	} else {
